@@ -17,6 +17,7 @@ import Ivg.Gen.Tie.Code.Encoder3
 import Ivg.Gen.Tie.Code.Encoder4
 import Ivg.Gen.Tie.Code.Encoder5
 import Ivg.Gen.Tie.Code.Encoder6
+import Ivg.Gen.Tie.Code.Decoder8
 import Ivg.Obligations
 /-!
 # C01 — encode then decode reproduces the drawing program
@@ -345,4 +346,6 @@ end Ivg.Props.C01
   Ivg.Gen.Tie.reset_code_tie_state,
   Ivg.Gen.Tie.wfEnc_init,
   Ivg.Gen.Tie.wfEnc_step,
-  Ivg.Gen.Tie.wfEnc_runOps]
+  Ivg.Gen.Tie.wfEnc_runOps,
+  -- regenerated code (translator) = model, for all inputs: the decoder from bytes to Destination calls (Tie/Code/Decoder*.lean)
+  Ivg.Gen.Tie.decode_Decode_code_tie]
